@@ -984,13 +984,14 @@ func c20Coq(c *c20Case) string {
 	}
 	var sb strings.Builder
 	for i, e := range c.Events {
-		if e[0] >= c20KFlush2Call { // the model has one FlushLogger call: the trace up to the second call is validated
-			break
+		k := e[0]
+		if k >= c20KFlush2Call { // a later FlushLogger call is the same visible event in the model
+			k = k - c20KFlush2Call + c20KFlushCall
 		}
 		if i > 0 {
 			sb.WriteString(";")
 		}
-		fmt.Fprintf(&sb, "(%d,%d,%d,%d)", e[0], e[1], e[2], e[3])
+		fmt.Fprintf(&sb, "(%d,%d,%d,%d)", k, e[1], e[2], e[3])
 	}
 	return fmt.Sprintf("mkcase %s [%s]", coqBool(c.Expect), sb.String())
 }
